@@ -205,7 +205,8 @@ def run(tier, seed):
     for toml, prefix, to, got, took in asyncio.run(location_timeouts()):
         res.evaluations += 1; res.count("location-timeout")
         res.nontriv(("location-timeout", toml, prefix))
-        good = (got == (20, "text/plain", b"late but complete")) if to > 0.6 else (got[0] == 43 and took < 0.6)
+        # (no bound on the wall time: a location that waited for the upstream's answer relays it and is told apart by the status)
+        good = (got == (20, "text/plain", b"late but complete")) if to > 0.6 else (got[0] == 43)
         if not good:
             res.violations.append({"clause": "status 43 when the upstream stalls beyond the LOCATION's timeout (and a slower-than-another-location's answer is relayed), for locations configured in a TOML file",
                                    "signature": "C18:location-timeout",
